@@ -369,6 +369,34 @@ for rep in range(2):
         import traceback
         fails.append(('count_data_dict', traceback.format_exc()[-500:]))
 
+# --- new-population constructor with the bracket helper replaced by the same fixed arrays on both sides
+#     (advanced indexing with broadcast index arrays, in-place += through a fancy index)
+from dadi import PhiManip
+for rep in range(3):
+    G = 3
+    shp = (G, G, G)
+    lowv = [[[rng.randrange(G) for _ in range(G)] for _ in range(G)] for _ in range(G)]
+    upv = [[[(lowv[i][j][k] + 1) % G for k in range(G)] for j in range(G)] for i in range(G)]
+    flv, fuv, nmv = arr(shp), arr(shp), arr(shp)
+    ph3 = arr(shp)
+    g3 = grid(G)
+
+    def nat_ctor():
+        saved = PhiManip._three_pop_admixture_intermediates
+        PhiManip._three_pop_admixture_intermediates = lambda *a: (np.array(lowv), np.array(upv), to_np(flv), to_np(fuv), to_np(nmv))
+        try:
+            return PhiManip.phi_3D_to_4D(to_np(ph3), 0.2, 0.3, to_np(g3), to_np(g3), to_np(g3), to_np(g3))
+        finally:
+            PhiManip._three_pop_admixture_intermediates = saved
+
+    def sym_ctor():
+        def pol(f_):
+            if f_.qualname == '_three_pop_admixture_intermediates':
+                return lambda ex_, ff, a, kw: (to_v(lowv), to_v(upv), to_v(flv), to_v(fuv), to_v(nmv))
+            return 'inline' if f_.qualname == 'phi_3D_to_4D' else 'abstract'
+        return run1(Executor(policy=pol), 'dadi/PhiManip.py', 'phi_3D_to_4D', [to_v(ph3), F(1, 5), F(3, 10), to_v(g3), to_v(g3), to_v(g3), to_v(g3)])
+    case('phi_3D_to_4D.fancy-indexing', nat_ctor, sym_ctor)
+
 print('E2-vs-CPython cross-check: %d cases, %d mismatches (seed %d)' % (count[0], len(fails), seed))
 for n_, why in fails:
     print('MISMATCH %s: %s' % (n_, why))
